@@ -56,6 +56,16 @@ CHECKS = {
    text="ViewPort: breadth-first search (depth 3, thorough 4; states merged on the complete reported geometry) over 82 operations on three parent sizes; after every transition all 100 content cells of -1..8^2 are pushed through a copy of the viewport and each resulting parent write must be exactly the translated cell inside the viewport rectangle, Fill must cover exactly the rectangle, and adjusted offsets must equal the clamped value. BoxLayout: every child list of length 1..4 over preferred {0,1,3} x fill {0,.5,1,2} x extents 0..12 x both orientations (thorough also all 5-child lists and 8-child lists over a reduced alphabet), BFS over Add/Insert/Remove/Resize/SetOrientation histories to depth 4 (5), and a nested layout; recording children paint their whole view plus a one-cell halo and the recording parent checks order, disjointness, containment, preferred extents and exact floor/ceil proportional surplus.",
    note="Geometry is read through the public getters; fill factors non-negative; depth-bounded histories.",
    design="2/C20"),
+ "C01": dict(level="model_checking",
+   technique="explicit-state BFS over draw histories on the real terminfo screen; fake Tty -> reference VT emulator compared with an independent shadow model after every Show/Sync/resize",
+   text="Breadth-first search with full-state keys (private screen state + reference terminal grid and registers + model bookkeeping) over nine scenario alphabets (wide-rune neighbourhood from a blank and from a painted screen, 10-style colour/attribute/underline/hyperlink set, colour cache without direct colour, cursor position/shape/colour from blank and painted screens, lock regions, window size changes by Show and by notification with Sync and external corruption, a mixed alphabet with out-of-range coordinates and control runes) on the real tScreen; after every Show, Sync and resize redraw the reference terminal's grid must equal the expected display computed from the shadow model (CIE76-nearest colours computed independently, ties accepted) and the cursor must be where/what was requested. Quick: reference configuration xterm-256color at depth 3-5 with and without direct colour plus one representative per draw-feature class of the 45 ECMA-48-family entries at depth 2-3; thorough: every family entry x direct colour on/off, one level deeper.",
+   note="The reference terminal and shadow model are this project's reading of ECMA-48/xterm ctlseqs (deferred wrap, wide-character overwrite semantics, BCE); capabilities are derived from the entry with tcell's documented 'mouse or xterm name => xterm extensions' rule; SetStyle makes equality demanded only from the next full redraw; depth-bounded.",
+   design="2/C01"),
+ "C13": dict(level="model_checking",
+   technique="same explicit-state exploration as C01 with per-cell write stamps in the reference terminal: cells written by a Show block must be a subset of the allowed set",
+   text="Same state space as C01. For every Show block the set of cells whose write stamp is the block must be contained in: cells a store changed (or that were unlocked) since the previous Show, cells whose expected display differs from the expected display at the previous Show (this is how columns covered/uncovered by wide runes enter), the other column of such wide runes, and the helper cells of the bottom-right insert-character detour; locked cells must never be written. A Show with no change writes no cell.",
+   note="Same trusted base as C01; a->b->a between two Shows counts as changed (the statement does not fix it).",
+   design="2/C13"),
  # --- new checks above this line ---
 }
 
